@@ -1,0 +1,40 @@
+//! Read-only introspection hooks for the external verification harness (feature `verif-hooks`).
+
+use super::PrefixMap;
+use crate::{Prefix, PrefixSet};
+
+/// A raw snapshot of the arena behind a [`PrefixMap`].
+#[derive(Debug, Clone, PartialEq, Eq)]
+pub struct VerifSnapshot {
+    /// Number of slots in the arena.
+    pub arena_len: usize,
+    /// The free list, in `Vec` order (the last element is popped next).
+    pub free: Vec<usize>,
+    /// The cached number of stored values (what `len()` reports).
+    pub count: usize,
+    /// For each slot: left child, right child, whether a value is stored, and the prefix length.
+    pub slots: Vec<(Option<usize>, Option<usize>, bool, u8)>,
+}
+
+impl<P: Prefix, T> PrefixMap<P, T> {
+    /// Take a raw snapshot of the arena.
+    pub fn verif_snapshot(&self) -> VerifSnapshot {
+        let table = self.table.as_ref();
+        VerifSnapshot {
+            arena_len: table.len(),
+            free: self.free.clone(),
+            count: self.table.count(),
+            slots: table
+                .iter()
+                .map(|n| (n.left, n.right, n.value.is_some(), n.prefix.prefix_len()))
+                .collect(),
+        }
+    }
+}
+
+impl<P: Prefix> PrefixSet<P> {
+    /// Take a raw snapshot of the arena.
+    pub fn verif_snapshot(&self) -> VerifSnapshot {
+        self.0.verif_snapshot()
+    }
+}
